@@ -23,6 +23,8 @@ def handle (st : State) (line : String) : State × String :=
   | "spec" :: rest => (st, specCmd rest)
   | "select" :: rest => (st, selectCmd selectP rest)
   | "selectp" :: rest => (st, selectCmd selectpP rest)
+  | "cutoff" :: rest => (st, selectCmd cutoffP rest)
+  | "row" :: rest => (st, selectCmd rowP rest)
   | toks =>
       match runP op toks with
       | some o => let (st', out) := step st o; (st', showOut st' out)
